@@ -159,7 +159,11 @@ func (e *Engine) Solve(rep *FuncReport, scratch string) {
 			f = base + ".light.smt2"
 		}
 		os.WriteFile(f, []byte(z3Header+script), 0o644)
-		cctx, cancel := context.WithTimeout(context.Background(), time.Duration(len(order)*tmo/1000+20)*time.Second)
+		budget := len(order)*tmo/1000 + 20
+		if budget > 150 {
+			budget = 150 // a function whose batch needs longer is answered obligation by obligation
+		}
+		cctx, cancel := context.WithTimeout(context.Background(), time.Duration(budget)*time.Second)
 		cmd := exec.CommandContext(cctx, "z3-new", "-smt2", f)
 		sw := &stampWriter{last: time.Now()}
 		cmd.Stdout = sw
@@ -219,8 +223,17 @@ func (e *Engine) Solve(rep *FuncReport, scratch string) {
 	// 2. everything not discharged: individual query, raced over the three back ends
 	var wg sync.WaitGroup
 	sem := make(chan struct{}, 4)
+	raced := 0
 	for i, ob := range rep.Obligations {
 		if ob.Status == "discharged" {
+			continue
+		}
+		raced++
+		if raced > 24 {
+			// more than two dozen open obligations in one function: the function has changed
+			// beyond what its contract describes; the remaining ones are reported undischarged
+			ob.Status = "undischarged"
+			ob.Output = "not attempted individually: more than 24 obligations of this function were left open by the batch run"
 			continue
 		}
 		wg.Add(1)
